@@ -501,6 +501,10 @@ class DigestAuthMiddleware:
             # Check if we need to authenticate
             if not self._authenticate(response):
                 break
+            if retry_count == 0:
+                # Free the connection of the challenge response, or the retry
+                # needs a second one while this one is still acquired.
+                response.release()
 
         # At this point, response is guaranteed to be defined
         assert response is not None
